@@ -12,6 +12,8 @@ IMPORTS = ('Require Import V.Base.MachineInt V.Model.LogBase V.Model.Appender V.
 RULE = ('twin logs: after the same short pre-history (limit opened, 0..4 offers / claims so that the tail is anywhere in the term, '
         'including a few bytes before its end) log A gets offer_bulk of a message cut into 1..6 buffers and log B offer of the whole message; '
         'message length from {0, 1, 31, 32, 33, payload-1, payload, payload+1, 2 payload, 2 payload+1, max-1, max, max+1, fills-the-term, one-too-many, random}; '
+        'exact-fit block: fragmented messages whose frames end exactly on the last byte of the term, one byte less and one byte more, for every MTU of the 1 KiB / 4 KiB geometries; '
+        'the reserved-value supplier is a checksum over the frame payload as it is in the term buffer when the supplier is called (plus offset and length); '
         'cuts: random compositions including empty buffers (first, middle, last), a single buffer, cuts exactly on fragment boundaries, '
         'one-byte buffers; geometry and hand-over points as in C04 (term 1 KiB / 4 KiB / 64 KiB, MTU 64..term/8, last terms, wrapped term ids); '
         'kind xapp: ExclusiveTermAppender::append_unfragmented_message_bulk against append_unfragmented_message on logs handed over at (n0, off0). '
@@ -75,6 +77,35 @@ def gen_twin(rng, i):
     return {'kind': 'twin', 'pub': 's', 'geom': [tlen, mtu, init, n0, off0], 'pre': pre, 'k': k + 1, 'parts': parts}
 
 
+def gen_exact_fit(rng, tlen, mtu, d, style):
+    """a FRAGMENTED message whose frames end exactly on the last byte of the term (d = 0), one byte less / more (d = -1 / +1)"""
+    mpl = mtu - 32
+    mm = min(tlen // 8, 16 * 1024 * 1024)
+    total = rng.choice([mpl + 1, mpl + rng.randrange(1, mpl), 2 * mpl, 2 * mpl + rng.randrange(1, mpl), mm, mm - rng.randrange(0, 40)])
+    total = max(mpl + 1, min(total, mm))
+    room = base.required(total, mpl)
+    off0 = tlen - room
+    n0 = rng.choice([0, 1, 2, 7, 2**31 - 2, 2**31 - 1])
+    init = rng.choice([0, -1, base.MAXI, rng.randrange(base.MINI, base.MAXI + 1)])
+    total = max(0, min(total + d, mm + 1))
+    if style == 0:
+        parts = [total]
+    elif style == 1:
+        parts, rest = [], total
+        while rest > 0 and len(parts) < 5:
+            c = min(rest, mpl)
+            parts.append(c)
+            rest -= c
+        if rest:
+            parts.append(rest)
+    else:
+        parts = base.split_parts(rng, total, mpl)
+    pre = [['l', (n0 * tlen + off0) + rng.randrange(1, 4 * tlen)]]
+    if rng.random() < 0.3:
+        pre.append(['n', 1])
+    return {'kind': 'twin', 'pub': 's', 'geom': [tlen, mtu, init, n0, off0], 'pre': pre, 'k': rng.randrange(0, 200), 'parts': parts}
+
+
 def gen_xapp(rng, i):
     tlen, mtu = rng.choice(base.GEOMS[:7])
     mpl = mtu - 32
@@ -89,13 +120,19 @@ def gen_xapp(rng, i):
 
 def generate(rng, tier):
     big = tier == 'thorough'
-    n = 6000 if big else 300
+    n = 6000 if big else 270
     cases = []
     # smallest witnesses first
     cases.append({'kind': 'twin', 'pub': 's', 'geom': [1024, 128, 0, 0, 0], 'pre': [['l', 100000]], 'k': 1, 'parts': [4]})
     cases.append({'kind': 'twin', 'pub': 's', 'geom': [1024, 128, 0, 0, 0], 'pre': [['l', 100000]], 'k': 1, 'parts': [10, 6]})
     cases.append({'kind': 'twin', 'pub': 's', 'geom': [4096, 64, 0, 0, 0], 'pre': [['l', 100000]], 'k': 1, 'parts': [10, 30]})
     cases.append({'kind': 'xapp', 'geom': [1024, 128, 0, 0, 0], 'k': 1, 'parts': [10, 6]})
+    # fragmented messages that end exactly on the last byte of the term, one byte less, one byte more: every MTU of the small geometries
+    geoms = base.GEOMS[:7] + (base.GEOMS[7:9] if big else [])
+    for j, (tlen, mtu) in enumerate(geoms):
+        for d in (0, -1, 1):
+            for rep in range(2 if not big else 8):
+                cases.append(gen_exact_fit(rng, tlen, mtu, d, (j + rep + d) % 3))
     for i in range(n):
         cases.append(gen_twin(rng, i) if i % 6 != 5 else gen_xapp(rng, i))
     return cases
